@@ -188,47 +188,89 @@ Section More.
     unfold pos_str. intros H. destruct (idx b - idx a) eqn:D; [simpl in H; congruence|lia].
   Qed.
 
-  Lemma int_token_some start base prefixed (s : ST) t s' :
-    @int_token U T start base prefixed s = Ok (Some t, s') -> pos_str start (pos s) <> [].
+  Lemma buildInt_empty base prefixed : buildInt T base [] prefixed = BI_invalid.
+  Proof. unfold buildInt. cbn [rev scan_suffix]. destruct prefixed; reflexivity. Qed.
+
+  (* int_token from a state sx of the scan that started at s0: a token has at least one byte; no token: the cursor is back at s0 *)
+  Lemma int_token_strong base prefixed (s0 sx : ST) :
+    wf_pos (pos s0) -> ext s0 sx ->
+    post (int_token T (pos s0) base prefixed sx)
+         (fun o s' => ext s0 s' /\ (o <> None -> idx (pos s0) < idx (pos s')) /\ (o = None -> idx (pos s') = idx (pos s0))).
   Proof.
-    unfold int_token, bind, get_pos. intros H Hn. rewrite Hn in H.
-    assert (Hb : buildInt T base [] prefixed = BI_invalid).
-    { unfold buildInt. cbn [rev scan_suffix]. destruct prefixed; reflexivity. }
-    rewrite Hb in H. discriminate.
+    intros W0 Ex. unfold int_token. step_pos.
+    destruct (buildInt T base (pos_str (pos s0) (pos sx)) prefixed) eqn:Hb.
+    - apply post_ret. split; [exact Ex|]. split; [|discriminate]. intros _. apply pos_str_nonempty. intros Hn. rewrite Hn, buildInt_empty in Hb. discriminate.
+    - apply post_bind. simpl. split; [apply ext_intro; simpl; auto; [apply (ext_depth' _ _ Ex)|apply (ext_user' _ _ Ex)]|].
+      split; [congruence|reflexivity].
   Qed.
 
-  Lemma fine_int_token_strong start base prefixed :
-    fine (@int_token U T start base prefixed) (fun o s s' => s' = s /\ (o <> None -> idx start < idx (pos s))).
+  (* Num() after its SkipWS() *)
+  Definition Num_inner : M U (option token) :=
+    start <- get_pos ;;
+    f <- at_alpha (a_float A) ;;
+    if f then
+      h <- Hex_ A ;;
+      if h then int_token T start 16 true
+      else b <- Binary_ A ;;
+           if b then int_token T start 2 true
+           else fl <- Float_ A ;;
+                if fl then
+                  p <- get_pos ;;
+                  let m := pos_str start p in
+                  let '(k, v) := buildFloat T m in
+                  ret (Some (TConstant m (line start) (col start) (KFloat k v)))
+                else
+                  set_pos start ;;;
+                  skip_while (a_int A) ;;;
+                  IntSuffix_ A ;;;
+                  p <- get_pos ;;
+                  let m := pos_str start p in
+                  match m with
+                  | [] => ret None
+                  | c :: _ => if (c =? 48)%N then int_token T start 8 false else int_token T start 10 false
+                  end
+    else ret None.
+  Lemma Num_unfold : @Num U A T = (SkipWS A false ;;; Num_inner).
+  Proof. reflexivity. Qed.
+
+  Lemma fine_Num_inner :
+    fine Num_inner (fun o s s' => (o <> None -> idx (pos s) < idx (pos s')) /\ (o = None -> idx (pos s') = idx (pos s))).
   Proof.
-    intros s W. pose proof (ext_refl s W) as E.
-    destruct (int_token T start base prefixed s) as [[o s']| | |] eqn:H; cbn [post].
-    - assert (s' = s).
-      { unfold int_token, bind, get_pos in H. destruct (buildInt T base _ prefixed); inversion H; reflexivity. }
-      subst s'. split; [exact E|]. split; [reflexivity|]. intros Ho. destruct o as [t|]; [|congruence].
-      apply pos_str_nonempty. eapply int_token_some; eauto.
-    - exact I.
-    - unfold int_token, bind, get_pos in H. destruct (buildInt T base _ prefixed); discriminate.
-    - unfold int_token, bind, get_pos in H. destruct (buildInt T base _ prefixed); discriminate.
+    intros s W. pose proof (ext_refl s W) as E. unfold Num_inner. step_pos.
+    step_at (fine_at_alpha (U:=U) (a_float A)).
+    ifd; [|done_ret; split; [congruence|reflexivity]].
+    assert (Fin : forall base prefixed (sx : ST), ext s sx ->
+              post (int_token T (pos s) base prefixed sx)
+                   (fun o s' => ext s s' /\ ((o <> None -> idx (pos s) < idx (pos s')) /\ (o = None -> idx (pos s') = idx (pos s))))).
+    { intros base prefixed sx Ex. apply (int_token_strong base prefixed s sx W Ex). }
+    step (fine_Hex_ (U:=U) A). destruct a; [apply Fin; assumption|].
+    step (fine_Binary_ (U:=U) A). destruct a; [apply Fin; assumption|].
+    step fine_Float_progress. destruct a.
+    - match goal with H : true = true -> _ < _ |- _ => specialize (H eq_refl) end.
+      step_pos. destruct (buildFloat T _). done_ret. split; [|discriminate]. intros _. clear E0. ext_lia.
+    - assert (E03 : ext s s2) by assumption.
+      apply post_bind. simpl.
+      set (sr := mkState (pos s) (depth s2) (user s2)).
+      assert (Er : ext s sr).
+      { apply ext_intro; simpl; auto; [apply (ext_depth' _ _ E03)|apply (ext_user' _ _ E03)]. }
+      clear - W Er Fin.
+      step (fine_skip_while (U:=U) (a_int A)). step (fine_IntSuffix_ (U:=U) A). step_pos.
+      destruct (pos_str (pos s) (pos s1)) as [|c r] eqn:Ps.
+      + done_ret. split; [congruence|]. intros _.
+        assert (Hle : idx (pos s1) <= idx (pos s)).
+        { unfold pos_str in Ps. destruct (Nat.le_gt_cases (idx (pos s1)) (idx (pos s))) as [L|L]; [exact L|exfalso].
+          assert (Hlen : List.length (firstn (idx (pos s1) - idx (pos s)) (skipn (idx (pos s)) (buf (pos s)))) = 0) by (rewrite Ps; reflexivity).
+          rewrite firstn_length, skipn_length in Hlen.
+          match goal with H : ext s s1 |- _ => pose proof (ext_len _ _ H) as HL; rewrite (ext_buf _ _ H) in HL end. lia. }
+        match goal with H : ext s s1 |- _ => pose proof (ext_idx _ _ H) end. lia.
+      + destruct (c =? 48)%N; apply Fin; assumption.
   Qed.
 
   Lemma fine_Num_strong : fine (@Num U A T) (fun o s s' => o <> None -> idx (pos s) < idx (pos s')).
   Proof.
-    intros s W. pose proof (ext_refl s W) as E. unfold Num.
-    step (fine_SkipWS (U:=U) A false). step_pos.
-    step_at (fine_at_alpha (U:=U) (a_float A)).
-    ifd; [|done_ret; congruence].
-    assert (Fin : forall base prefixed (sx : ST), ext s0 sx ->
-              post (int_token T (pos s0) base prefixed sx) (fun o s' => ext s s' /\ (o <> None -> idx (pos s) < idx (pos s')))).
-    { intros base prefixed sx Ex. eapply post_mono; [apply fine_int_token_strong; eapply ext_wf; eassumption|].
-      intros o s' [E' [-> Ho]]. split; [eapply ext_trans; eauto|]. intros Hn. specialize (Ho Hn). clear E0 E' Ex. ext_lia. }
-    step (fine_Hex_ (U:=U) A). destruct a0; [apply Fin; assumption|].
-    step (fine_Binary_ (U:=U) A). destruct a0; [apply Fin; eapply ext_trans; eauto|].
-    step fine_Float_progress. destruct a0.
-    - match goal with H : true = true -> _ < _ |- _ => specialize (H eq_refl) end.
-      step_pos. destruct (buildFloat T _). done_ret. intros _. clear E0. ext_lia.
-    - step (fine_IntSuffix_ (U:=U) A). step_pos.
-      destruct (pos_str _ _) as [|c r] eqn:Ps; [done_ret; congruence|].
-      destruct (c =? 48)%N; apply Fin; repeat (eapply ext_trans; [eassumption|]); apply ext_refl; eapply ext_wf; eassumption.
+    rewrite Num_unfold. apply (fine_ws_then A _ (fun o p p' => o <> None -> idx p < idx p')).
+    - intros s W. eapply post_mono; [apply fine_Num_inner, W|]. intros o s' [E' [H1 _]]. split; [exact E'|exact H1].
+    - intros a p p' p'' L H Ha. specialize (H Ha). lia.
   Qed.
 
   (* ---------------------------------------------------------------- the two string scanners *)
